@@ -3,6 +3,7 @@ package stick
 import (
 	"bytes"
 	"io"
+	"io/ioutil"
 	"os"
 	"path/filepath"
 )
@@ -79,5 +80,11 @@ func (l *FilesystemLoader) Load(name string) (Template, error) {
 	if err != nil {
 		return nil, err
 	}
-	return &fileTemplate{name, f}, nil
+	// Read the file now and close it: nothing else ever closed the handle.
+	defer f.Close()
+	contents, err := ioutil.ReadAll(f)
+	if err != nil {
+		return nil, err
+	}
+	return &fileTemplate{name, bytes.NewReader(contents)}, nil
 }
